@@ -131,7 +131,7 @@ SPECS["actor.rs::run_actor_lifecycle"] = dict(
                 C("lifecycle.select.fired_branch_matches_monitor", "C04 C06 C08 C01", "sel_post3(actor, __sel1_out)"),
                 C("lifecycle.select.idle_only_if_enabled", "C08", "__sel1_out is B2 ==> idle_enabled"),
                 C("lifecycle.select.idle_off_tracked", "C08",
-                  "idle_enabled ==> !actor.mon().idle_off || (__sel1_out matches Out3::B2(Ok(false)))"),
+                  "if __sel1_out matches Out3::B2(Ok(false)) { idle_enabled && actor.mon().idle_off } else { idle_enabled == !actor.mon().idle_off }"),
             ],
         ),
     },
